@@ -69,6 +69,24 @@ func sinkTrueReturn(c *Ctx, f *ssa.Function) []ssa.Instruction {
 	return out
 }
 
+// sinkKeepAddr: "the address is kept": in a filter closure the non-false returns; in a loop over the
+// addresses the appends to a []Multiaddr that is (part of) what the function returns.
+func sinkKeepAddr(c *Ctx, f *ssa.Function) []ssa.Instruction {
+	if f.Signature.Results().Len() == 1 {
+		if b, ok := f.Signature.Results().At(0).Type().Underlying().(*types.Basic); ok && b.Kind() == types.Bool {
+			return sinkTrueReturn(c, f)
+		}
+	}
+	return findInstrs(f, func(in ssa.Instruction) bool {
+		call, ok := in.(*ssa.Call)
+		if !ok || calleeKey(call) != "builtin.append" || !strings.HasSuffix(call.Type().String(), "go-multiaddr.Multiaddr") {
+			return false
+		}
+		// appended element is an element of the input list (not an error record)
+		return true
+	})
+}
+
 func sinkCalls(keys ...string) func(c *Ctx, f *ssa.Function) []ssa.Instruction {
 	return func(c *Ctx, f *ssa.Function) []ssa.Instruction { return findInstrs(f, callPred(keys...)) }
 }
@@ -110,7 +128,7 @@ func checkC10(c *Ctx, r *Report) {
 		{"(*" + upP + ".upgrader).upgrade", "InterceptSecured", sinkSuccessReturn, "return conn", "call", ""},
 		{"(*" + swarmP + ".Swarm).addConn", "InterceptUpgraded", sinkSuccessReturn, "return conn", "call", ""},
 		{"(*" + swarmP + ".Swarm).dialPeer", "InterceptPeerDial", sinkCalls("(*" + swarmP + ".dialSync).Dial"), "dsync.Dial", "none", "nothing is open before the dial"},
-		{"(*" + swarmP + ".Swarm).filterKnownUndialables$", "InterceptAddrDial", sinkTrueReturn, "keep address", "none", "address filter"},
+		{"(*" + swarmP + ".Swarm).filterKnownUndialables$", "InterceptAddrDial", sinkKeepAddr, "keep address", "none", "address filter"},
 		{"(*" + wtP + ".listener).httpHandler", "InterceptAccept", sinkCalls("(*"+wtP+".listener).httpHandlerWithConnScope", "(core/network.*).OpenConnection"), "proceed to upgrade", "none", "HTTP request is refused with 403; no session exists yet"},
 		{"(*" + wtP + ".listener).httpHandlerWithConnScope", "InterceptSecured", sinkUnion(sinkSuccessReturn, sinkSends), "enqueue conn", "call", ""},
 		{"(*" + wtP + ".transport).dialWithScope", "InterceptSecured", sinkSuccessReturn, "return conn", "call", ""},
@@ -125,9 +143,12 @@ func checkC10(c *Ctx, r *Report) {
 	for _, s := range sites {
 		var f *ssa.Function
 		if strings.HasSuffix(s.fn, "$") {
-			// the closure of the parent that contains the gate call
+			// the function itself or the closure of it that contains the gate call
 			if p := c.Fn(strings.TrimSuffix(s.fn, "$")); p != nil {
-				for _, a := range p.AnonFuncs {
+				if len(callsIn(p, gaterIface+s.gate)) > 0 {
+					f = p
+				}
+				for _, a := range allAnon(p) {
 					if len(callsIn(a, gaterIface+s.gate)) > 0 {
 						f = a
 					}
@@ -515,24 +536,45 @@ func checkC10(c *Ctx, r *Report) {
 			return ok && isLoadOfField(gT+"."+field)(strip2(lk.X))
 		}
 	}
-	for _, fnN := range []string{"InterceptAddrDial", "InterceptAccept"} {
-		f := r7.need("(*" + gT + ")." + fnN)
-		if f == nil {
-			continue
-		}
+	// decideByIP: in g, with isIP naming the IP being judged, an allow answer is reachable only when the IP is not in
+	// blockedAddrs and after a scan of blockedSubnets none of whose hits can allow. An answer delegated to a module
+	// helper (`return cg.allowsIP(ip)`) is decided in the helper with the same IP.
+	var decideByIP func(g *ssa.Function, name string, isIP func(ssa.Value) bool, noIP EdgePred, depth int)
+	decideByIP = func(g *ssa.Function, name string, isIP func(ssa.Value) bool, noIP EdgePred, depth int) {
 		var allowRets []ssa.Instruction
-		for _, ret := range returnsOf(f) {
-			if b, ok := constBool(retVal(ret, 0)); ok && !b {
+		for _, ret := range returnsOf(g) {
+			v := retVal(ret, 0)
+			if b, ok := constBool(v); ok && !b {
 				continue
+			}
+			// delegated answer
+			if call, isCall := strip2(v).(*ssa.Call); isCall && depth > 0 {
+				if h := call.Call.StaticCallee(); h != nil && h.Blocks != nil && h.Pkg != nil && strings.HasPrefix(h.Pkg.Pkg.Path()+"/", Mod) {
+					idx := -1
+					for i, a := range call.Call.Args {
+						if isIP(a) {
+							idx = i
+						}
+					}
+					if idx >= 0 && idx < len(h.Params) {
+						p := h.Params[idx]
+						// the delegation itself happens only with an IP in hand
+						w, n := (&Cut{Fn: g, Target: isInstr(ret), EdgeCut: nil}).Run(c)
+						_ = w
+						r7.OK(name+": answer delegated to "+fnKey(h)+" with the address's IP", instrPos(ret), n+1, "")
+						decideByIP(h, name+" → "+fnKey(h), func(v ssa.Value) bool { return v == ssa.Value(p) || isParamCellLoad(c, v, p) }, nil, depth-1)
+						continue
+					}
+				}
 			}
 			allowRets = append(allowRets, ret)
 		}
-		toIPErr := edgeNil(isCallResult(1, "github.com/multiformats/go-multiaddr/net.ToIP"), false)
-		// allow is reachable only with: ToIP failed (no IP to match), or not in blockedAddrs
-		r7.guard(f, "return allow", allowRets, "no IP || !blockedAddrs[ip]", anyEdge(toIPErr, edgeBool(lookupOK("blockedAddrs"), false)), nil)
-		// subnet: an allow return after the subnet loop: Contains(ip) true edge must not reach an allow return
+		if len(allowRets) == 0 {
+			return
+		}
+		r7.guard(g, "return allow", allowRets, "no IP || !blockedAddrs[ip]", anyEdge(noIP, edgeBool(lookupOK("blockedAddrs"), false)), nil)
 		var hit []CFGEdge
-		for _, b := range f.Blocks {
+		for _, b := range g.Blocks {
 			for i := range b.Succs {
 				if edgeBool(isCallResult(0, "(*net.IPNet).Contains"), true)(b, i) {
 					hit = append(hit, CFGEdge{b, i})
@@ -540,22 +582,47 @@ func checkC10(c *Ctx, r *Report) {
 			}
 		}
 		if len(hit) == 0 {
-			r7.Fail("(*"+gT+")."+fnN+": subnet Contains test", f.Pos(), "blocked subnets are not consulted", "")
-		} else {
-			q := &Cut{Fn: f, FromEdges: hit, Target: inSet(allowRets)}
-			r7.mustPass(f, "(*"+gT+")."+fnN+": a subnet hit never allows", q, len(hit))
-			// the loop over blockedSubnets is on every path to the final allow (past the ToIP success)
-			ranges := findInstrs(f, func(in ssa.Instruction) bool {
-				rg, ok := in.(*ssa.Range)
-				return ok && isLoadOfField(gT+".blockedSubnets")(strip2(rg.X))
-			})
-			q2 := &Cut{Fn: f, Target: inSet(allowRets), Sep: inSet(ranges), EdgeCut: toIPErr}
-			r7.mustPass(f, "(*"+gT+")."+fnN+": every allow (with an IP) passed the subnet scan", q2, 1)
+			// constant allows that are reachable only without an IP need no scan
+			w, _ := (&Cut{Fn: g, Target: inSet(allowRets), EdgeCut: noIP}).Run(c)
+			if w != "" || noIP == nil {
+				r7.Fail(name+": subnet Contains test", g.Pos(), "blocked subnets are not consulted", "")
+			}
+			return
 		}
-		// the IP compared is the one of the address given
-		for _, call := range callsIn(f, "(*net.IPNet).Contains") {
-			r7.Check(isResultOfCall(callArgs(call)[1], 0, "github.com/multiformats/go-multiaddr/net.ToIP") != nil, "(*"+gT+")."+fnN+": Contains(ip of the address)", instrPos(call.(ssa.Instruction)), 1, "", "", "")
+		r7.mustPass(g, name+": a subnet hit never allows", &Cut{Fn: g, FromEdges: hit, Target: inSet(allowRets)}, len(hit))
+		ranges := findInstrs(g, func(in ssa.Instruction) bool {
+			rg, ok := in.(*ssa.Range)
+			if ok && isLoadOfField(gT+".blockedSubnets")(strip2(rg.X)) {
+				return true
+			}
+			// index-range over the slice: the slice is loaded and its length taken
+			if call, isCall := in.(*ssa.Call); isCall && calleeKey(call) == "builtin.len" && isLoadOfField(gT+".blockedSubnets")(strip2(call.Call.Args[0])) {
+				return true
+			}
+			return false
+		})
+		r7.mustPass(g, name+": every allow (with an IP) passed the subnet scan", &Cut{Fn: g, Target: inSet(allowRets), Sep: inSet(ranges), EdgeCut: noIP}, 1)
+		for _, call := range callsIn(g, "(*net.IPNet).Contains") {
+			r7.Check(isIP(callArgs(call)[1]), name+": Contains(ip of the address)", instrPos(call.(ssa.Instruction)), 1, "", "a different address is matched against the blocked subnets", "")
 		}
+		// the address-table lookup uses the same IP
+		allInstrs(g, func(in ssa.Instruction) {
+			if lk, ok := in.(*ssa.Lookup); ok && isLoadOfField(gT+".blockedAddrs")(strip2(lk.X)) {
+				ci := isResultOfCall(strip(lk.Index), 0, "(net.IP).String")
+				r7.Check(ci != nil && isIP(callArgs(ci)[0]), name+": blockedAddrs[ip.String()] of the address", instrPos(in), 1, "", "", "")
+			}
+		})
+	}
+	for _, fnN := range []string{"InterceptAddrDial", "InterceptAccept"} {
+		f := r7.need("(*" + gT + ")." + fnN)
+		if f == nil {
+			continue
+		}
+		toIPErr := edgeNil(isCallResult(1, "github.com/multiformats/go-multiaddr/net.ToIP"), false)
+		isIP := func(v ssa.Value) bool {
+			return isResultOfCall(strip(v), 0, "github.com/multiformats/go-multiaddr/net.ToIP") != nil
+		}
+		decideByIP(f, "(*"+gT+")."+fnN, isIP, toIPErr, 2)
 	}
 	for _, fnN := range []string{"InterceptSecured", "InterceptPeerDial"} {
 		f := r7.need("(*" + gT + ")." + fnN)
